@@ -100,7 +100,7 @@ REQUIRED_CLASSES = (
     + ["binw/fwhm=fine", "binw/fwhm=medium", "binw/fwhm=coarse", "stark:gauss", "stark:lorentz", "stark:voigt",
        "pol:no", "pol:pi", "pol:sigma", "B:0", "B:par", "B:perp", "B:oblique", "doppler:zero", "doppler:red", "doppler:blue", "doppler:across",
        "zero-width:Ts=neg", "zero-width:Ts=zero", "zero-width:beam-T=zero", "zero-width:width=neg", "zero-width:width=zero",
-       "radiance:0", "ratio-checked", "pi+sigma-checked", "adds-checked", "partial-window"]
+       "radiance:0", "ratio-checked", "pi+sigma-checked", "adds-checked", "partial-window", "integrator-history"]
     + ["ratio-checked:%s" % m for m in ("MultipletLineShape", "ZeemanTriplet", "ParametrisedZeemanTriplet", "ZeemanMultiplet",
                                         "StarkBroadenedLine", "BeamEmissionMultiplet")]
 )
@@ -144,9 +144,110 @@ def cases(tier):
                 out.append({"model": prim, "label": prim, "width": w, "ratio": r})
         for w in (0.0, -0.3):
             out.append({"model": prim, "label": prim, "width": w, "ratio": 1.0})
+    # the per-bin integrator of the Lorentzian part has setters: every way of reaching one configuration must
+    # integrate like an integrator constructed with it (engine-H style family inside this lattice check)
+    finals = INTEGRATOR_FINALS[tier]
+    for fi in range(len(finals)):
+        for gi in range(-1, len(finals)):
+            if gi != fi:
+                out.append({"model": "integrator-history", "label": "GaussianQuadrature", "final": fi, "start": gi})
     for c in out:
         c["tier"] = tier
     return out
+
+
+INTEGRATOR_FINALS = {
+    "quick": [(1, 50, 1e-5), (4, 40, 1e-5), (6, 6, 1e-5), (2, 10, 1e-8)],
+    "thorough": [(1, 50, 1e-5), (4, 40, 1e-5), (6, 6, 1e-5), (2, 10, 1e-8), (3, 30, 1e-3), (12, 12, 1e-5), (1, 3, 1e-5)],
+}
+
+
+def _run_integrator_history(case):
+    """All orders of the three setters (with an optional integration before each) leading from a start
+    configuration (-1 = default constructor) to the final one, compared with an integrator constructed with the
+    final configuration: getters, two direct integrals and the bins of a Lorentzian line."""
+    import math
+    import numpy as np
+    from raysect.optical import Spectrum
+    from cherab.core.math.integrators import GaussianQuadrature
+    from cherab.core.model.lineshape.stark import add_lorentzian_line
+    tier = case.get("tier", "quick")
+    finals = INTEGRATOR_FINALS[tier]
+    fmin, fmax, frt = finals[case["final"]]
+    start = None if case["start"] < 0 else finals[case["start"]]
+
+    def peaked(x):
+        return 1.0 / (abs(x - 0.37) ** 2.5 + 0.05)
+
+    def observe(q):
+        out = []
+        for f in (math.exp, peaked):
+            try:
+                q.integrand = f
+                out.append(q(0.0, 1.0))
+            except Exception as e:  # noqa - an integrator that raises is an observation, compared like a value
+                out.append("EXC:" + type(e).__name__)
+        try:
+            sp = Spectrum(499.0, 501.0, 40)
+            add_lorentzian_line(2.0, 500.03, 0.3, sp, q)
+            out += [float(v) for v in sp.samples]
+        except Exception as e:  # noqa
+            out += ["EXC:" + type(e).__name__] * 40
+        return out
+
+    ref_q = GaussianQuadrature(relative_tolerance=frt, max_order=fmax, min_order=fmin)
+    ref = observe(ref_q)
+    ref2 = observe(GaussianQuadrature(relative_tolerance=frt, max_order=fmax, min_order=fmin))
+    viol, classes, nontrivial = [], ["integrator-history"], []
+    if ref != ref2:
+        return {"harness_error": "two identically constructed integrators disagree"}
+    exact = math.e - 1.0
+    # independent sanity of the reference itself: smooth integrand within 10 x rtol (or exact for a fixed order >= 6)
+    if isinstance(ref[0], str) or (abs(ref[0] - exact) > max(10 * frt, 1e-12) * exact and fmax >= 6):
+        viol.append({"sig": "C02:GaussianQuadrature:constructor:smooth-integral-off", "what": "integral of exp over (0,1)", "expected": exact, "observed": ref[0]})
+    n = 0
+    setters = ("min_order", "max_order", "relative_tolerance")
+    target = {"min_order": fmin, "max_order": fmax, "relative_tolerance": frt}
+    for order in itertools.permutations(setters):
+        for mask in range(8):
+            if start is None:
+                q = GaussianQuadrature()
+                cur = {"min_order": 1, "max_order": 50}
+            else:
+                q = GaussianQuadrature(relative_tolerance=start[2], max_order=start[1], min_order=start[0])
+                cur = {"min_order": start[0], "max_order": start[1]}
+            ok = True
+            for i, name in enumerate(order):
+                # supported changes only: the documented preconditions min <= max must hold at every step
+                if name == "min_order" and target[name] > cur["max_order"]:
+                    ok = False
+                    break
+                if name == "max_order" and target[name] < cur["min_order"]:
+                    ok = False
+                    break
+                if (mask >> i) & 1:
+                    observe(q)
+                setattr(q, name, target[name])
+                if name in cur:
+                    cur[name] = target[name]
+            if not ok:
+                continue
+            n += 1
+            got = observe(q)
+            getters = (q.min_order, q.max_order, q.relative_tolerance)
+            lab = "%s:%s" % ("from-default" if start is None else "from-other-config", ">".join(x.split("_")[0] for x in order))
+            nontrivial.append((case["final"], case["start"], order, mask))
+            if getters != (fmin, fmax, frt):
+                viol.append({"sig": "C02:GaussianQuadrature:setter-history:getters-differ", "what": lab, "expected": [fmin, fmax, frt], "observed": list(getters)})
+            bad = [k for k, (a, b) in enumerate(zip(got, ref))
+                   if not (a == b or (not isinstance(a, str) and not isinstance(b, str) and abs(a - b) <= 1e-13 * max(abs(a), abs(b))))]
+            if bad:
+                what = "integrator configured through setters (%s, integration before ops %s) integrates differently from one constructed with min_order=%d, max_order=%d, rtol=%g" % (lab, bin(mask), fmin, fmax, frt)
+                kind = "direct-integral" if bad[0] < 2 else "lorentzian-line-bins"
+                viol.append({"sig": "C02:GaussianQuadrature:setter-history:%s:differs-from-constructed" % kind, "what": what,
+                             "expected": [ref[k] for k in bad[:4]], "observed": [got[k] for k in bad[:4]]})
+    return {"viol": viol[:6], "classes": classes, "n": max(n, 1), "outcome": ("integrator-history", case["final"], case["start"], n, len(viol)),
+            "states": [("gq", case["final"], case["start"])], "transitions": 3 * n, "nontrivial": nontrivial}
 
 
 def crash_label(case):
@@ -383,6 +484,8 @@ def run_case(case):
 
     model = case["model"]
     tier = case.get("tier", "quick")
+    if model == "integrator-history":
+        return _run_integrator_history(case)
     adders, p = _build(case)
     reffn = ls.MODELS[model]
     acc = _Acc()
